@@ -484,6 +484,7 @@ Init == /\ idx \in 1..Len(Scns)
 
 Next == Take \/ Skip \/ TakeT \/ Micro
 Spec == Init /\ [][Next]_vars
+FairSpec == Spec /\ WF_vars(Next)
 
 AllDone == pc > Len(Steps) /\ (Threaded => \A t \in DOMAIN Threads : tpc[t] > Len(Threads[t]))
 Finished == halted \/ (cur.r = 0 /\ AllDone)
@@ -543,6 +544,13 @@ DbStepShape ==
             \/ (Len(new) = Len(old) + 1 /\ SubSeq(new, 1, Len(old)) = old /\ new[Len(new)].id = engs[e].nf)
             \/ (Len(new) = Len(old) + 1 /\ Tail(new) = old /\ new[1].id = engs[e].nf)
             \/ new = SelectSeq(old, LAMBDA f : \E i \in DOMAIN new : new[i].id = f.id)]_vars
+
+\* C14 (temporal, under weak fairness of Next, on families whose searches are finite by design):
+\* every scenario comes to its end, and it does so without the machine running out of fuel, i.e. the
+\* update loops of the scenario terminate in the specification itself
+Termination == <>Finished
+NeverOutOfFuel ==
+  \A i \in DOMAIN hist : hist[i].obs.k # "budget" /\ (hist[i].obs.k = "solve" => hist[i].obs.end # "budget")
 
 \* C01/C05/C06: where the scenario carries reference answers (computed by the denotational
 \* semantics of Control.tla, or taken from the textbook corpus), the machine's answers to
